@@ -239,6 +239,54 @@ theorem same_cache_key_shares (cfg : Cfg) (tr : List Act) (c1 c2 n1 n2 : Nat) (o
   · obtain ⟨x, hx, hk', hf⟩ := hfl
     exact ⟨x, by rw [j2]; exact hx, hk', hf⟩
 
+/-- **Two calls share an execution iff they have the same (rendered cache) key.**  From any reachable state, two
+new callers call one after the other with keys `k1`, `k2` (whatever the arguments were that rendered to them, whoever
+the callers are - plain callers or tasks spawned by an earlier body - and whatever else is in flight): they end up
+attached to one and the same execution exactly when `k1 = k2`.  Equal arguments that render differently, or the same
+arguments under another template context, are different keys: different executions. -/
+theorem share_iff_same_key (cfg : Cfg) (tr : List Act) (c1 c2 k1 k2 n1 n2 : Nat) (o1 o2 : Outcome) (h12 : c2 ≠ c1)
+    (h1 : (run (init cfg) tr).callers c1 = none) (h2 : (run (init cfg) tr).callers c2 = none) :
+    (∃ e st1 st2, (run (init cfg) (tr ++ [.call c1 k1 n1 o1, .call c2 k2 n2 o2])).callers c1 = some ⟨some e, st1⟩ ∧
+      (run (init cfg) (tr ++ [.call c1 k1 n1 o1, .call c2 k2 n2 o2])).callers c2 = some ⟨some e, st2⟩) ↔ k1 = k2 := by
+  constructor
+  · rintro ⟨e, st1, st2, a1, a2⟩
+    obtain ⟨e1, he1, x1, hx1, hk1, _⟩ := call_attaches cfg tr k1 c1 n1 o1 h1
+    have e1' : run (init cfg) (tr ++ [.call c1 k1 n1 o1]) = step (run (init cfg) tr) (.call c1 k1 n1 o1) := by
+      rw [run_append]; rfl
+    have h2' : (run (init cfg) (tr ++ [.call c1 k1 n1 o1])).callers c2 = none := by
+      rw [e1', call_other_caller _ c1 c2 _ _ _ h12]; exact h2
+    obtain ⟨e2, he2, x2, hx2, hk2, _⟩ := call_attaches cfg (tr ++ [.call c1 k1 n1 o1]) k2 c2 n2 o2 h2'
+    have e2' : run (init cfg) (tr ++ [.call c1 k1 n1 o1, .call c2 k2 n2 o2]) =
+        run (init cfg) (tr ++ [.call c1 k1 n1 o1] ++ [.call c2 k2 n2 o2]) := by
+      rw [List.append_assoc]; rfl
+    rw [e2'] at a1 a2
+    have e3 : run (init cfg) (tr ++ [.call c1 k1 n1 o1] ++ [.call c2 k2 n2 o2]) =
+        step (run (init cfg) (tr ++ [.call c1 k1 n1 o1])) (.call c2 k2 n2 o2) := by
+      rw [run_append]; rfl
+    -- caller 1's entry is not touched by the second call
+    rw [e3, call_other_caller _ c2 c1 _ _ _ (Ne.symm h12), he1] at a1
+    rw [he2] at a2
+    simp only [Option.some.injEq, Caller.mk.injEq] at a1 a2
+    obtain ⟨a1, _⟩ := a1
+    obtain ⟨a2, _⟩ := a2
+    have hee : e1 = e2 := by
+      have a1' : e1 = e := by simpa using a1
+      have a2' : e2 = e := by simpa using a2
+      rw [a1', a2']
+    subst hee
+    -- the key of an execution never changes
+    obtain ⟨x', hx', hl⟩ := exec_step _ (reachable_inv cfg (tr ++ [.call c1 k1 n1 o1])) (.call c2 k2 n2 o2) e1 x1 hx1
+    rw [← e3] at hx'
+    rw [hx2] at hx'
+    simp only [Option.some.injEq] at hx'
+    subst hx'
+    rw [← hk1, ← hk2]
+    exact hl.1.symm
+  · intro hk
+    subst hk
+    obtain ⟨e, j1, j2, _, _⟩ := same_cache_key_shares cfg tr c1 c2 n1 n2 o1 o2 ⟨k1, 0⟩ ⟨k1, 0⟩ rfl h12 h1 h2
+    exact ⟨e, .waiting, .waiting, j1, j2⟩
+
 /-- **An execution that ended cancelled is over like any other.**  When an execution whose outcome is
 `cancelled` (the body's own await was cancelled) completes: every caller waiting on it receives
 `CancelledError` (`got cancelled` - what `await asyncio.shield(task)` does for a cancelled task), the key is
@@ -693,5 +741,12 @@ example : (run (init (earlyCfg true false)) fg).callers 2 = some ⟨some 2, .got
     bodyStarts (run (init (earlyCfg true false)) fg) 0 = 2 := by decide
 -- premises of `recalculation_outcome_shared`
 example : (run (init (earlyCfg true false)) (fg.take 5)).execs 2 = some ⟨0, 0, .exc 3 2, false, true, some 2⟩ := by decide
+
+-- keys decide: calls 1 and 3 (key 7) share execution 1, call 2 (key 8 - e.g. the same arguments under another template
+-- context, or 1.0 instead of 1) runs on its own
+example : (run (init (.plain true 8)) [.call 1 7 1 (.ret 1), .call 2 8 1 (.ret 2), .call 3 7 0 (.ret 3)]).callers 3
+      = some ⟨some 1, .waiting⟩ ∧
+    (run (init (.plain true 8)) [.call 1 7 1 (.ret 1), .call 2 8 1 (.ret 2), .call 3 7 0 (.ret 3)]).callers 2
+      = some ⟨some 2, .waiting⟩ := by decide
 
 end CashewsVerif.Props.C07
